@@ -24,13 +24,13 @@ def widthOfSer (ws : List Word) : Option Nat :=
   | .ok (s, _) => some s.low.width
   | .fault _ => none
 
-def spPairs (P : List Nat) : List (Nat × Nat) := (List.range P.length).map fun r => (r, P[r]?.getD 0)
+def spPairs (P : List Nat) : List (Nat × Nat) := P.zipIdx.map fun p => (p.2, p.1)
 
 def distinctBits (n : Nat) (P : List Nat) : List Bool := (List.range n).map fun i => P.contains i
 
 def zeroPairs (n : Nat) (P : List Nat) : List (Nat × Nat) :=
   let zs := (List.range n).filter fun i => !P.contains i
-  (List.range zs.length).map fun r => (r, zs[r]?.getD 0)
+  zs.zipIdx.map fun p => (p.2, p.1)
 
 /-- generic forward/backward runner: `next`/`nextBack` on a state, default `nth`/`nth_back` by repetition -/
 def iterRun {σ α} (render : Option α → String) (next : σ → Outcome (Option α × σ))
@@ -133,7 +133,7 @@ def evalSparse (st : DState) (name : String) (t : List String) (impl : String) :
     if op == "copy_of" || op == "from" then
       match refBits st src with
       | some B => buildWith B.length false (onesPos B) "sp.copy"
-      | none => { st := st, model := "driver:no-object" }
+      | none => { st := st, model := "panic:no-object" }
     else evalSpQ st name t m
   | "builder" :: n :: ones :: multi :: rest =>
     let n := num n; let ones := num ones; let multi := multi == "1"
@@ -189,7 +189,7 @@ def evalSparse (st : DState) (name : String) (t : List String) (impl : String) :
 where
   evalSpQ (st : DState) (name : String) (t : List String) (m : Mode) : Eval :=
     match st.sps[name]? with
-    | none => { st := st, model := "driver:no-object" }
+    | none => { st := st, model := "panic:no-object" }
     | some o =>
       let s := o.m; let n := o.n; let P := o.vals
       let isSet := sortedStrict P
@@ -203,7 +203,7 @@ where
       | ["eq", other] =>
         (match st.sps[other]? with
          | some o2 => res (toString (decide (s = o2.m))) (some (toString (decide (n = o2.n ∧ P = o2.vals)))) "sp.eq"
-         | none => res "driver:no-object" none)
+         | none => res "panic:no-object" none)
       | ["get", i] => let i := num i
         res (render rBool01 (s.get m i)) (if i < n then some (rBool01 (getSet P i)) else none) "sp.get"
       | ["rank", i] => let i := num i
